@@ -768,7 +768,12 @@ class SqlalchemyRender:
 
             sql_query = str(ast_query)
             if self.dialect.name == 'postgresql':
-                sql_query = sql_query.replace('`', '')
+                # back-quotes are not postgres syntax; inside of a string constant they are data and stay
+                sql_query = re.sub(
+                    r"'(?:[^'\\]|\\.|'')*'|`",
+                    lambda m: '' if m.group(0) == '`' else m.group(0),
+                    sql_query
+                )
             return sql_query, None
 
 
